@@ -1434,9 +1434,16 @@ class LegCharge:
 
         """
         perm_flat = np.asarray(perm_flat)
-        perm_qind = perm_flat[self.slices[:-1]]
+        # read off the qindex at the beginning of each block of the *permuted* leg
+        perm_qind = []
+        pos = 0
+        while pos < len(perm_flat) and len(perm_qind) < self.block_number:
+            qi = self.get_qindex(perm_flat[pos])[0]
+            perm_qind.append(qi)
+            pos += self.slices[qi + 1] - self.slices[qi]
+        perm_qind = np.array(perm_qind, dtype=np.intp)
         # check if perm_qind indeed resembles the permutation
-        if np.any(perm_flat != self.perm_flat_from_perm_qind(perm_qind)):
+        if pos != len(perm_flat) or len(perm_flat) != self.ind_len or np.any(perm_flat != self.perm_flat_from_perm_qind(perm_qind)):
             raise ValueError('Permutation mixes qind')
         return perm_qind
 
